@@ -23,6 +23,9 @@ CLAIMS = {
  "C20": ("proof", "Decision rules proved as equivalences/implications on the models for every input (build rejects iff reserved last value; base rejected iff not a power of two; unsorted pair anywhere; reserved mapped value; lo>hi; too-wide coordinate anywhere; non-increasing key; negative epsilon). The malformed input stream places each violation at every position; exception kinds and the container state after a rejected insert are compared with the implementation.", "6.20"),
  "C05": ("proof", "Refinement of the executable LSM model to an ordered map (insert/erase/bulk/find/count/lower_bound) for all histories and configurations under the per-level index contract; model tied to the implementation by comparing the full private state after every operation; judge = abstract map.", "6.5"),
  "C06": ("proof", "Traversal/range/size/empty of the model (LoserTree, iterator, range merge) against the abstract map; full output sequences compared with the implementation.", "6.6"),
+ "C13": ("proof", "Proved for all inputs: Morton coding round trip and box test (pdep/pext bit level), the general BIGMIN specification for every width (induction on the bit index), the iterator (range) yields exactly the stored codes in the box with multiplicity, in order, terminating -- relative to the inner index's C02 contract; capstone theorem from multi_build. Judge: filter of the sorted codes by the coordinate-wise box test, bigmin against brute force on small boxes.", "6.13"),
+ "C14": ("proof", "Proved for all inputs relative to the inner index's C02 contract: contains(p) is true iff p is a stored point (encode injective). Judge: set membership on every query point (present, absent below/between/above all codes).", "6.14"),
+ "C19": ("proof", "Partial by nature. Proved: in an abstract store, re-bound pointer members => a copy/move refers to no storage of its source; the decision procedure over the member layout REGENERATED from the clang AST holds for all six classes. Trusted: the translator's coverage of pointer-like members, the C++ object model. Run-time side: every order of copy/move construct/assign x destroy/mutate source x query under AddressSanitizer.", "6.19"),
  "C15": ("proof", "LSM invariants proved inductive over all histories; the boolean form inv_b is evaluated on the implementation's dumped private state after every update.", "6.15"),
 }
 TECH = "machine-checked proof in Coq 8.16 (model + theorems) with extraction-based differential correspondence and extracted judges"
